@@ -84,6 +84,8 @@ TriC(x, y, w) == << <<x, y>>, <<x + w, y + 30>>, <<x + 40, y + w>>, <<x, y>> >>
 OpenRing(x, y, w) == << <<x, y>>, <<x + w, y>>, <<x + w, y + w>> >>                              \* an unclosed ring
 BowTie(x, y, w) == << <<x, y>>, <<x + w, y + w>>, <<x + w, y>>, <<x, y + w>>, <<x, y>> >>
 Sliver(x, y, w) == << <<x, y>>, <<x + 2 * w, y>>, <<x + w, y>>, <<x, y>> >>
+(* a ring that passes through its first vertex twice (two triangles joined at a corner, as a clipper writes them) *)
+Pinch(x, y, w) == << <<x, y>>, <<x + w, y>>, <<x + w, y + w>>, <<x, y>>, <<x - w, y>>, <<x - w, y - w>>, <<x, y>> >>
 L1 == << <<0, 0>>, <<100, 50>>, <<200, 0>> >>
 L2 == << <<1000, 0>>, <<1100, 70>> >>
 L3 == << <<0, 1000>>, <<300, 1300>>, <<100, 1500>>, <<0, 1200>> >>
@@ -100,7 +102,8 @@ Bases == { G("Point", <<50, 60>>), G("MultiPoint", L1), G("LineString", L3), G("
            (* closed rings that enclose nothing (a symmetric bow-tie, a ring folded onto a line): every derived quantity of
               such a ring - its area, its winding direction - is decided by perturbations far below the tolerance *)
            G("Polygon", <<BowTie(0, 11000, 200)>>), G("Polygon", <<Sliver(0, 12000, 100), Box(1000, 12000, 100)>>),
-           G("MultiPolygon", << <<BowTie(0, 13000, 200)>>, <<Box(1000, 13000, 100), Sliver(1010, 13050, 30)>> >>) }
+           G("MultiPolygon", << <<BowTie(0, 13000, 200)>>, <<Box(1000, 13000, 100), Sliver(1010, 13050, 30)>> >>),
+           G("Polygon", <<Pinch(500, 15000, 100)>>), G("MultiPolygon", << <<Box(0, 16000, 300), Pinch(150, 16150, 40)>> >>) }
 
 (* vertex-wise maps (depend on the vertex value only, so a closing vertex moves with its twin); a map is named
    by a record: [k |-> "jig", s] moves every coordinate by < Tol, [k |-> "disp", target, dx, dy] moves one vertex,
